@@ -186,16 +186,18 @@ fn cells(tier: Tier, seed: u64) -> Vec<Cell> {
 }
 
 pub fn checks() -> Vec<Box<dyn DynCheck>> {
-    vec![Box::new(C08 { known: Known::load() }), Box::new(super::extendpaths::DefaultCtors)]
+    vec![Box::new(C08 { known: Known::load() }), Box::new(super::extendpaths::DefaultCtors), Box::new(super::extendpaths::PqUsable)]
 }
 
 pub fn run(ctx: &Ctx) {
-    ctx.set_rule("cells (epsilon, delta, stream shape): epsilon in {0.5,0.3,0.1,0.03,0.01,0.003} x delta in {0.99,0.9,0.5,0.3,0.1,0.03,0.01,0.003} x {heavy: ceil(1/eps)-1 elements weighted just above eps*N plus 300 light probe elements; zipf; uniform}; plus generated (epsilon, delta) with delta >= epsilon/2 (60 quick / 1500 thorough). Each cell: many seeded SipHash hashers x 300 queried elements; per-seed fraction of elements with query_point - true > epsilon*N; mean tested against delta at z = 6 with cluster-robust s.e. and a 4x confirmation with fresh seeds. Cells listed in known_findings.json are still measured and only alarm above their recorded ceiling. Non-trivial: cells with >= 50 expected exceedances at the bound. Distinct = cell. evaluations = cells + queried (seed, element) pairs. default_constructors: with_point_query_properties / with_params (no hasher argument) against the _and_hasher constructors given BuildHasherDefault<DefaultHasher>: same (w, d) and the same add/query_point results on up to 300 keys.");
+    ctx.set_rule("cells (epsilon, delta, stream shape): epsilon in {0.5,0.3,0.1,0.03,0.01,0.003} x delta in {0.99,0.9,0.5,0.3,0.1,0.03,0.01,0.003} x {heavy: ceil(1/eps)-1 elements weighted just above eps*N plus 300 light probe elements; zipf; uniform}; plus generated (epsilon, delta) with delta >= epsilon/2 (60 quick / 1500 thorough). Each cell: many seeded SipHash hashers x 300 queried elements; per-seed fraction of elements with query_point - true > epsilon*N; mean tested against delta at z = 6 with cluster-robust s.e. and a 4x confirmation with fresh seeds. Cells listed in known_findings.json are still measured and only alarm above their recorded ceiling. Non-trivial: cells with >= 50 expected exceedances at the bound. Distinct = cell. evaluations = cells + queried (seed, element) pairs. default_constructors: with_point_query_properties / with_params (no hasher argument) against the _and_hasher constructors given BuildHasherDefault<DefaultHasher>: same (w, d) and the same add/query_point results on up to 300 keys. constructor_domain: with_point_query_properties over epsilon in 1e-6 .. f64::MAX (incl. e/k, 1, e, 1e10) and delta in 5e-324 .. 1 - 2^-53: no panic, w >= 1 and d >= 1, add's return == query_point, true <= query_point <= N, one distinct element exact.");
     ctx.assume("fraction taken over SipHash seeds and queried elements; sketch built by with_point_query_properties_and_hasher");
     let c = C08 { known: Known::load() };
-    ctx.run_regressions(&[&c]);
+    ctx.run_regressions(&[&c, &super::extendpaths::PqUsable]);
     ctx.run_fixed(&c, cells(ctx.tier, ctx.seed));
     // with_point_query_properties (no hasher argument) sizes the sketch like the constructor measured above
     ctx.run_random(&super::extendpaths::DefaultCtors, ctx.tier.pick(3_000, 30_000), || super::extendpaths::default_ctor_strategy(&[3, 6]));
+    // the whole documented domain of the constructor: epsilon > 0 (also >= 1, up to f64::MAX), 0 < delta < 1 (also next to 0 and 1)
+    ctx.run_random(&super::extendpaths::PqUsable, ctx.tier.pick(20_000, 200_000), super::extendpaths::pq_strategy);
     ctx.put_extra("excluded_regions", json!(["thorough-tier random cells are drawn only from delta >= epsilon/2; the band delta < 0.135*epsilon (double-hashing floor) is visited only through the fixed grid cells recorded as known findings"]));
 }
